@@ -145,6 +145,10 @@ def helper(drv, model, kind):
     from cobra.util import solver as su
     if not model._contexts:
         raise Skip("helpers are only exercised inside a context")
+    names = {v.name for v in model.variables} | {c.name for c in model.constraints}
+    if any(n.startswith(("moma_old_objective", "room_old_objective", "indicator_", "s_plus_", "s_minus_", "fixed_objective_"))
+           for n in names) or model.objective.name == "_pfba_objective":
+        raise Skip("a helper is active already")
     if kind == "add_pfba":
         fa.parsimonious.add_pfba(model)
     elif kind == "add_moma":
